@@ -38,6 +38,8 @@ pub enum TokOp {
     Reread { l: usize },
     /// list.clear(); list.lookup(query, all fields)
     Lookup { l: usize, query: String },
+    /// SentenceSplitter::with_checker(dict.lexicon()).split(text)  (ConcSim only; TokSim ignores it)
+    Sentences { text: String },
 }
 
 #[derive(Clone, Debug, Serialize, Deserialize)]
@@ -731,6 +733,7 @@ pub fn execute(case: &TokCase, stats: &mut Stats, work: &Path) -> Option<Violati
                     return viol("list-changed-after-fill", &field, oi, json!({"morpheme": mi, "now": a, "when_filled": b}));
                 }
             }
+            TokOp::Sentences { .. } => {}
             TokOp::Lookup { l, query } => {
                 let li = *l % case.n_lists.max(1);
                 stats.inc("op.lookup");
